@@ -20,6 +20,7 @@ fn main() {
     let code = run::with_big_stack(move || match cmd.as_str() {
         "compile" => drivers::misc::compile(&rest),
         "project" => drivers::misc::project(&rest),
+        "ctx" => drivers::misc::ctx(&rest),
         "genstats" => drivers::misc::genstats(&rest),
         "c01" => drivers::c01::drive(&rest),
         "c02" => drivers::c02::drive(&rest),
